@@ -22,6 +22,7 @@ type txInfo struct {
 	foreign bool
 	reads   []readInfo // in script order (R and LL)
 	delL    map[string]bool
+	modes   map[string]string // key id -> reporting mode of the last write
 }
 
 type readInfo struct{ sp, k string }
@@ -41,12 +42,13 @@ func scan(b *core.Behaviour, upto int) []*txInfo {
 				item = nil
 				it++
 			}
-			t := &txInfo{num: s.Int("tx"), exec: s.Str("e"), block: blk, item: it, wroteS: map[string]bool{}, wroteL: map[string]bool{}, delL: map[string]bool{}}
+			t := &txInfo{num: s.Int("tx"), exec: s.Str("e"), block: blk, item: it, wroteS: map[string]bool{}, wroteL: map[string]bool{}, delL: map[string]bool{}, modes: map[string]string{}}
 			txs = append(txs, t)
 			item = append(item, t)
 		case "W":
 			t := txs[len(txs)-1]
 			t.wroteS[s.Str("k")] = true
+			t.modes[s.Str("k")] = s.Str("m")
 			id := s.Str("k")
 			if !strings.HasPrefix(id, t.exec+"//n/") {
 				t.foreign = true
@@ -54,6 +56,7 @@ func scan(b *core.Behaviour, upto int) []*txInfo {
 		case "LW":
 			t := txs[len(txs)-1]
 			t.wroteL[s.Str("k")] = true
+			t.modes["L:"+s.Str("k")] = s.Str("m")
 			if s.Bool("del") {
 				t.delL[s.Str("k")] = true
 			}
@@ -307,10 +310,10 @@ func (d *drv) Signature(b *core.Behaviour, idx int, field string, expected, obse
 			t := txs[len(txs)-1]
 			var ks []string
 			for k := range t.wroteS {
-				ks = append(ks, keyClass(k, t.exec))
+				ks = append(ks, keyClass(k, t.exec)+"("+t.modes[k]+")")
 			}
 			for k := range t.wroteL {
-				ks = append(ks, "L:"+keyClass(k, t.exec))
+				ks = append(ks, "L:"+keyClass(k, t.exec)+"("+t.modes["L:"+k]+")")
 			}
 			cls = "|exec=" + t.exec + "|keys=" + strings.Join(sortStrings(ks), ",")
 		}
@@ -427,10 +430,10 @@ func (d *drv) Signature(b *core.Behaviour, idx int, field string, expected, obse
 				if n == atoi(parts[1]) {
 					var ks []string
 					for k := range t.wroteS {
-						ks = append(ks, keyClass(k, t.exec))
+						ks = append(ks, keyClass(k, t.exec)+"("+t.modes[k]+")")
 					}
 					for k := range t.wroteL {
-						ks = append(ks, "L:"+keyClass(k, t.exec))
+						ks = append(ks, "L:"+keyClass(k, t.exec)+"("+t.modes["L:"+k]+")")
 					}
 					cls = "exec=" + t.exec + "|keys=" + strings.Join(sortStrings(ks), ",")
 				}
